@@ -2088,7 +2088,7 @@ impl StorageEngine {
         let ttl = self.ttl(db, key)?;
         
         match ttl {
-            Some(duration) => Ok(duration.as_millis() as i64),
+            Some(duration) => Ok(i64::try_from(duration.as_millis()).unwrap_or(i64::MAX)),
             None => {
                 if self.exists(db, key)? {
                     Ok(-1)
